@@ -5,6 +5,7 @@
 From Coq Require Import List ZArith Bool Sorting.Sorted Sorting.Permutation.
 From Lox Require Import Rang3.RangeModel Rang3.ClassModel Rang3.RangeProofs Rang3.RangeProofsSub
   Rang3.RangeProofsClass Rang3.RangeProofsUniq Rang3.RangeProofsNorm.
+From Lox Require Import Lex.Utf8Model Gen.EscapeModel Gen.EscapeRune Gen.EscapeRuneProofs.
 Import ListNotations.
 Open Scope Z_scope.
 
@@ -83,3 +84,53 @@ Proof.
   - cbn [cwf]. split; repeat constructor; cbn [rB rE fst snd]; try (apply Z.leb_le; vm_compute; reflexivity).
   - vm_compute; reflexivity.
 Qed.
+
+(* ---- escapes (internal/parser/parser.go unescape / on_char_class toRune / lexer_term_literal.go) ----
+   The code point a class item or a literal character stands for, through the
+   models of unescape (bytes written) and of utf8.DecodeRune. *)
+
+(* \uXXXX denotes exactly the code point XXXX, for every scalar value *)
+Theorem C15_escape_u_denotes : forall ds, length ds = 4%nat -> forallb is_hex ds = true ->
+  0 <= hex_value ds <= 1114111 -> ~ (55296 <= hex_value ds <= 57343) ->
+  class_char_rune (92 :: 117 :: ds) = Some (hex_value ds).
+Proof. exact escape_u_denotes. Qed.
+Print Assumptions C15_escape_u_denotes.
+
+(* \UXXXXXXXX likewise *)
+Theorem C15_escape_U_denotes : forall ds, length ds = 8%nat -> forallb is_hex ds = true ->
+  0 <= hex_value ds <= 1114111 -> ~ (55296 <= hex_value ds <= 57343) ->
+  class_char_rune (92 :: 85 :: ds) = Some (hex_value ds).
+Proof. exact escape_U_denotes. Qed.
+Print Assumptions C15_escape_U_denotes.
+
+(* \n \r \t \\ \- and the lone backslash *)
+Theorem C15_escape_simple_denotes :
+  class_char_rune [92; 110] = Some 10 /\ class_char_rune [92; 114] = Some 13 /\
+  class_char_rune [92; 116] = Some 9 /\ class_char_rune [92; 92] = Some 92 /\
+  class_char_rune [92; 45] = Some 45 /\ class_char_rune [92] = Some 92.
+Proof. exact escape_simple_denotes. Qed.
+Print Assumptions C15_escape_simple_denotes.
+
+(* an unescaped character denotes itself, for every scalar value other than the backslash *)
+Theorem C15_plain_char_denotes : forall r, 0 <= r <= 1114111 -> ~ (55296 <= r <= 57343) -> r <> 92 ->
+  class_char_rune (encode_rune r) = Some r.
+Proof. exact plain_char_denotes. Qed.
+Print Assumptions C15_plain_char_denotes.
+
+(* a literal without escapes matches exactly its code-point sequence *)
+Theorem C15_literal_runes_plain : forall rs,
+  Forall (fun r => (0 <= r <= 1114111 /\ ~ (55296 <= r <= 57343)) /\ r <> 92) rs ->
+  literal_runes (encode_all rs) = Some rs.
+Proof. exact literal_runes_plain. Qed.
+Print Assumptions C15_literal_runes_plain.
+
+(* outside the hypotheses the code does something else: \xff is a byte (decoded to U+FFFD),
+   a surrogate or a value above U+10FFFF becomes U+FFFD.  The property's list of escapes
+   does not include \x; the others are not code points. *)
+Theorem C15_escape_oddities :
+  class_char_rune [92; 120; 102; 102] = Some 65533 /\
+  class_char_rune [92; 117; 100; 56; 48; 48] = Some 65533 /\
+  class_char_rune [92; 85; 48; 48; 49; 49; 48; 48; 48; 48] = Some 65533 /\
+  class_char_rune [92; 85; 70; 70; 70; 70; 70; 70; 70; 70] = Some 65533.
+Proof. exact escape_oddities. Qed.
+Print Assumptions C15_escape_oddities.
